@@ -1761,8 +1761,12 @@ class TaskScenario(ScenarioData):
         """
         total_cost = 0.0
 
-        # Get resources for this task
-        resources = self._getResourcesForTask()
+        # Get resources for this task (each once: 'allocate r, r' names one resource, whose
+        # booked time is paid once)
+        resources: list[Any] = []
+        for candidate in self._getResourcesForTask():
+            if not any(candidate is known for known in resources):
+                resources.append(candidate)
 
         for resource in resources:
             # Get the resource's scenario data
